@@ -66,7 +66,7 @@ int e1_callback_count() { return 4; }
 
 // ---------------------------------------------------------------------------------------------
 struct Dev { int p; LD v; };
-struct Assignment { int nd; Dev d[3]; };
+struct Assignment { int nd; Dev d[3]; int structured = -1; };  // structured >= 0: index into Ctx::structured (any number of deviations)
 
 struct Stat { long n = 0; double maxratio = 0; double maxratio_op = 0; long nviol = 0; long nknown = 0; };
 struct Opts {
@@ -102,7 +102,7 @@ static Params generic_base(const std::vector<std::string>& names, int seed) {
 
 struct Ctx {
   const System* sys; Params base; std::vector<LD> dflt; std::vector<std::vector<LD>> alpha; std::vector<Pt> pts;
-  std::vector<Assignment> as; int level_end[4]; size_t zero_pairs = 0; std::vector<std::string> namesB;
+  std::vector<Assignment> as; int level_end[4]; size_t zero_pairs = 0, nstructured = 0; std::vector<std::vector<Dev>> structured; std::vector<std::string> namesB;
 };
 
 static std::string fmt_params(const Params& P) {
@@ -266,7 +266,8 @@ struct Runner {
   // returns false if inadmissible
   bool run_assignment(const Assignment& a) {
     Params P = C.base;
-    for (int k = 0; k < a.nd; k++) P.m[P.names[a.d[k].p]] = a.d[k].v;
+    for (int k = 0; k < a.nd && a.structured < 0; k++) P.m[P.names[a.d[k].p]] = a.d[k].v;
+    if (a.structured >= 0) for (auto& dv : C.structured[a.structured]) P.m[P.names[dv.p]] = dv.v;
     // long-double-only pass: every input gets a full 64-bit mantissa (the reference receives exactly that long double value; it is NOT
     // representable in double), so a double temporary holding nothing but inputs (Gamma - 1, a*pi/L ...) is no longer exact by accident
     if (O.ldfull) for (auto& kv : P.m) if (std::find(C.sys->frozen.begin(), C.sys->frozen.end(), kv.first) == C.sys->frozen.end()) kv.second = kv.second * 1.00000000012345678901L;  // rounded to long double: a full 64-bit mantissa
@@ -349,6 +350,12 @@ static void build_ctx(Ctx& C, const System& sys, int tier) {
     }
   }
   C.zero_pairs = C.as.size() - C.level_end[3];
+  if (sys.structured && !g_red) {
+    for (auto& set : sys.structured(names)) {
+      std::vector<Dev> dv; for (auto& kv : set) { auto it = std::find(names.begin(), names.end(), kv.first); if (it == names.end()) { fprintf(stderr, "E1 HARNESS ERROR: structured assignment names unknown parameter %s\n", kv.first.c_str()); exit(2); } dv.push_back({(int)(it - names.begin()), kv.second}); }
+      Assignment a; a.nd = std::min<int>(3, dv.size()); a.structured = C.structured.size(); C.structured.push_back(dv); C.as.push_back(a); C.nstructured++;
+    }
+  }
 }
 
 
@@ -392,7 +399,7 @@ static int run_system(const System& sys0, int tier, FILE* out, double t_end) {
   std::string al = "{"; bool first = true; long nalpha = 0;
   for (size_t i = 0; i < C.alpha.size(); i++) nalpha += C.alpha[i].size();
   (void)first; (void)al;
-  fprintf(out, "{\"k\":\"system\",\"system\":\"%s\",\"prop\":\"%s\",\"nparams\":%zu,\"alphabet\":%ld,\"points\":%zu,\"assignments\":%zu,\"level_end\":[%d,%d,%d,%d],\"zero_pairs\":%zu,\"base\":%s}\n", sys.name.c_str(), sys.prop.c_str(), C.base.names.size(), nalpha, C.pts.size(), C.as.size(), C.level_end[0], C.level_end[1], C.level_end[2], C.level_end[3], C.zero_pairs, fmt_params(C.base).c_str());
+  fprintf(out, "{\"k\":\"system\",\"system\":\"%s\",\"prop\":\"%s\",\"nparams\":%zu,\"alphabet\":%ld,\"points\":%zu,\"assignments\":%zu,\"level_end\":[%d,%d,%d,%d],\"zero_pairs\":%zu,\"structured\":%zu,\"base\":%s}\n", sys.name.c_str(), sys.prop.c_str(), C.base.names.size(), nalpha, C.pts.size(), C.as.size(), C.level_end[0], C.level_end[1], C.level_end[2], C.level_end[3], C.zero_pairs, C.nstructured, fmt_params(C.base).c_str());
   return rc;
 }
 
